@@ -157,14 +157,14 @@ Qed.
 
 (* ---------- membership, at the observation point ---------- *)
 Theorem membership_partial fs cwd cb s ps :
-  compile false (cb_lines cb) = CPats ps ->
+  compile false (cb_lines cb) = CPats ps -> notail ps ->
   (forall d, In d (cb_roots cb) -> lookup fs d = Some KDir) ->
   (forall r root, resolve fs cwd s = Ok r -> find_root (cb_roots cb) r = Some root ->
      parent_reinclude ps (rel_comps root r) = false /\ dir_reneg ps (rel_comps root r) = false) ->
   contains fs cwd cb s = member fs cwd cb s.
 Proof.
-  intros Hc Hd Hg. unfold contains, member. destruct (resolve fs cwd s) as [r|e] eqn:Hr; [|reflexivity].
-  cbn [bind]. apply (contains_eq_member fs cb r ps Hc (compile_indep _ _ Hc) Hd).
+  intros Hc NT Hd Hg. unfold contains, member. destruct (resolve fs cwd s) as [r|e] eqn:Hr; [|reflexivity].
+  cbn [bind]. apply (contains_eq_member fs cb r ps Hc (compile_indep _ _ Hc) NT Hd).
   intros root Hf. apply (Hg r root eq_refl Hf).
 Qed.
 
